@@ -376,6 +376,10 @@ def run_path_enum(desc):
         sw = A.render_path(pp._replace(segs=tuple(swap_lits(x) for x in segs)))
         for j in (0, 1, 2, 3, 4, 5, 6, 8, 12, 15):
             check_relations('gl', pp, text, FLAGSETS[j], names, out, 'path-enum', as_bytes=(idx + j) % 5 == 0, swapped_text=sw)
+        if idx % 4 == 2:
+            # NODIR refuses names that end in a separator - in either spelling under Windows rules; every relation holds with it
+            for j in (0, 4, 5, 6, 12):
+                check_relations('gl', pp, text, FLAGSETS[j] + ('NODIR',), names, out, 'path-enum-nodir', as_bytes=(idx + j) % 5 == 0, swapped_text=sw)
         if len(segs) >= 2 and idx % 3 == 1:
             # the same pattern with every separator doubled (and tripled): runs of separators mean one, under either convention
             for dup in (2, 3):
